@@ -522,13 +522,19 @@ class DFXPWriter(BaseWriter):
             styles = ''
 
             content_with_style = _recreate_style(node.content, dfxp)
-            for style, value in list(content_with_style.items()):
-                styles += f' {style}="{_quote_attribute(value)}"'
             if node.layout_info:
                 region_id, region_attribs = (
                     self.region_creator.get_positioning_info(
                         lang, caption_set, caption, node
                     ))
+                if self.write_inline_positioning:
+                    # an attribute can only be written once; like on the
+                    # <p> tag, the positioning attribute wins
+                    for k_ in region_attribs:
+                        content_with_style.pop(k_, None)
+            for style, value in list(content_with_style.items()):
+                styles += f' {style}="{_quote_attribute(value)}"'
+            if node.layout_info:
                 styles += f' region="{region_id}"'
                 if self.write_inline_positioning:
                     styles += ' ' + ' '.join(
